@@ -9,7 +9,11 @@
 #   - rbql-js csv_utils.smart_split (node),
 # plus structured random long Unicode lines with a random relabelling of the characters outside the three
 # special classes. Relation: equality of (fields, warning) with the model.
+# Second tie (props/csvgen.py): rbql-py/rbql/csv_utils.py is TRANSLATED into Gallina on every run (harness/translate_csv.py) and the
+# generated obligations gen_csv_<name>_eq (translation = index model CsvIx.v, which Props/C11.v proves equal to Csv.v) are compiled
+# beside the correspondence run; a refused translation / failing obligation without a failing input -> no-failing-input-found.
 import lib
+from props import csvgen
 
 POL = {'simple': 0, 'quoted': 1, 'quoted_rfc': 2, 'whitespace': 3, 'monocolumn': 4}
 THEOREM = ('C11_split_is_dialect / C11_warning_iff / C11_fast_path / C11_other_policies / C11_preserving_rejoin '
@@ -318,6 +322,37 @@ def check_relabel(ctx, cases, exp):
 
 
 def run(ctx):
+    gen = csvgen.start(ctx)          # translation of csv_utils.py + generated obligations, beside the correspondence run
+    failure = None
+    try:
+        run_correspondence(ctx)
+    except lib.CheckFailure as e:
+        failure = e                  # e.g. a driver that cannot import the changed module: still report the obligations
+    csvgen.finish(ctx, gen, search_more=(lambda langs: extended_search(ctx, langs)) if failure is None else None)
+    if failure is not None:
+        raise failure
+
+
+def extended_search(ctx, langs):
+    """a generated obligation broke and the tier's run found no failing input: search further before saying so
+    (the legs whose translation broke)"""
+    class T:                          # the thorough tier's random generator, capped
+        tier = 'thorough'
+        rng = ctx.rng
+    base = random_cases(T)[:120]
+    for impl in langs:
+        cs = []
+        for c in base:
+            ms = c['modes'] if impl == 'py' else [m for m in c['modes'] if m[0] == 'direct']
+            if ms:
+                cs.append(dict(c, modes=ms, impl=impl))
+        exp, got, _args, _res, _spans = evaluate(cs, impl)
+        ctx.compare(cs, exp, got, THEOREM, rel=rel, shrink=shrink,
+                    describe=lambda c, e, g: 'split differs from the dialect (%s, extended search): %s' % (c.get('impl'), first_diff(c, e, g)))
+        ctx.stat('extended_search_lines_' + impl, sum(len(case_lines(c)) for c in cs))
+
+
+def run_correspondence(ctx):
     ctx.rule = ('every line over the class alphabet {quote, delimiter character(s), space, other} up to the length bound per delimiter '
                 '(plan(): quoted modes / other policies), through CSVRecordIterator (quoted, quoted_rfc, simple, monocolumn, whitespace for a space), '
                 'csv_utils.smart_split (py, js; incl. preserve mode) + structured random Unicode lines with relabelled twins; '
@@ -352,6 +387,8 @@ def run(ctx):
 
 
 def replay(ctx, case):
+    if 'csvgen_obligation' in case:
+        return csvgen.replay(ctx, case)
     impl = case.get('impl', 'py')
     exp, got, _a, _r, _s = evaluate([case], impl)
     ctx.count(len(case_lines(case)) * len(case['modes']))
